@@ -62,15 +62,15 @@ Percentile(s, pn, pd) == LET n == Len(s)
                              frac == Norm(num - lo * den, den)
                          IN IF lo + 1 >= n THEN R(s[n])
                             ELSE RAdd(R(s[lo + 1]), RMul(frac, R(s[lo + 2] - s[lo + 1])))
-BoxDef(c, bcov, wcov) ==     \* coverages in percent (integers): levels (100-cov)/2 and 100-(100-cov)/2
+BoxDef(c, bcov, wcov) ==     \* coverages in TENTHS of a percent (455 = 45.5%): levels (100-cov)/2 and 100-(100-cov)/2
    LET f == SortI(Finite(c))
        n == Len(f)
    IN IF n <= 3 THEN [count |-> n, defined |-> FALSE]
       ELSE [count |-> n, defined |-> TRUE,
-            wlo |-> Percentile(f, 100 - wcov, 2), blo |-> Percentile(f, 100 - bcov, 2), med |-> Percentile(f, 50, 1),
-            bhi |-> Percentile(f, 100 + bcov, 2), whi |-> Percentile(f, 100 + wcov, 2),
+            wlo |-> Percentile(f, 1000 - wcov, 20), blo |-> Percentile(f, 1000 - bcov, 20), med |-> Percentile(f, 50, 1),
+            bhi |-> Percentile(f, 1000 + bcov, 20), whi |-> Percentile(f, 1000 + wcov, 20),
             min |-> R(f[1]), max |-> R(f[n]), mean |-> Norm(SumSeq(f), n)]
-BoxOrdered == Part = "box" => \A cov \in {<<50, 90>>, <<40, 95>>, <<80, 99>>} :
+BoxOrdered == Part = "box" => \A cov \in {<<500, 900>>, <<400, 950>>, <<455, 999>>} :
                  LET b == BoxDef(pts, cov[1], cov[2]) IN
                  b.defined => /\ RLe(b.min, b.wlo) /\ RLe(b.wlo, b.blo) /\ RLe(b.blo, b.med) /\ RLe(b.med, b.bhi)
                               /\ RLe(b.bhi, b.whi) /\ RLe(b.whi, b.max) /\ RLe(b.min, b.mean) /\ RLe(b.mean, b.max)
